@@ -72,19 +72,27 @@ impl<T: Config> InputQueue<T> {
     /// gap. The caller is responsible for sending these to remote peers so they see consecutive
     /// frame numbers.
     pub(crate) fn set_frame_delay(&mut self, delay: usize) -> Vec<PlayerInput<T::Input>> {
-        let old_delay = self.frame_delay;
         self.frame_delay = delay;
 
-        if delay <= old_delay || self.last_added_frame == NULL_FRAME {
+        if self.last_added_frame == NULL_FRAME {
             return Vec::new();
         }
 
-        let fill_count = delay - old_delay;
+        // The next submission is for user frame `last_user_frame + 1` and lands on that frame plus
+        // the new delay. Every frame between the newest queued frame and that target is a gap that
+        // has to be bridged with the last input. Bridge it right away, so that the queue holds
+        // exactly the fills that are reported to the caller (and sent to the remote peers) - the
+        // gap depends on what the queue holds, not on the previous delay value: after a decrease
+        // the queue may still be ahead, and then an increase opens fewer frames (or none).
+        let target = self.last_user_frame + 1 + delay as i32;
         let fill_start = self.last_added_frame + 1;
         let last_input = self.inputs[Self::prev_pos(self.head)];
-        (0..fill_count as i32)
-            .map(|i| PlayerInput::new(fill_start + i, last_input.input))
-            .collect()
+        let mut fills = Vec::new();
+        for frame in fill_start..target {
+            self.add_input_by_frame(last_input, frame);
+            fills.push(PlayerInput::new(frame, last_input.input));
+        }
+        fills
     }
 
     pub(crate) fn reset_prediction(&mut self) {
